@@ -409,6 +409,7 @@ func TestVerifCodecDNS(t *testing.T) {
 				} else {
 					mut[rng.Intn(len(mut))] = byte(rng.Intn(256))
 				}
+				mut = vExact(mut)
 				guard("dns:MessageFromWireFormat", len(mut), func() {
 					_, err := MessageFromWireFormat(mut)
 					classes["arb:message:"+fmt.Sprint(err == nil)] = true
